@@ -355,9 +355,10 @@ Definition agree_closerace (k n oks errs pending : nat) (o : sobs) : bool :=
 Definition wres (p : wpc) : ores := match p with WDone Ok => ROk | WDone Err => RErr | _ => RPending end.
 
 Definition agree_blocked (nok : nat) (blocked : bool) (o : robs) : bool :=
-  (* the Send that fails must have been seen blocked in the write when Stop was called *)
-  blocked &&
-  match wrun false winit (blocked_schedule nok) with
+  (* the schedule is the one observed: [blocked] = a Send was in flight when Stop was called and
+     did not complete (it must then fail, released by Stop); otherwise every Send had completed
+     before Stop closed the connection *)
+  match wrun false winit (if blocked then blocked_schedule nok else unblocked_schedule nok) with
   | Some s =>
       list_eqb ores_eqb (map wres (writers s)) (o_sends o) &&
       list_eqb Bool.eqb [match stopper s with SRet => true | _ => false end] (o_stops o) &&
@@ -367,11 +368,14 @@ Definition agree_blocked (nok : nat) (blocked : bool) (o : robs) : bool :=
 
 (* ---- a protocol start whose constructor is running when Close is called ------- *)
 
-Definition agree_ctor_held (start_ok : bool) (o : sobs) : bool :=
-  match orun false oinit (ctor_held_schedule true) with
+Definition agree_ctor_held (held start_ok : bool) (o : sobs) : bool :=
+  (* [held] = observed: the constructor had been entered (the instance registered) and had not
+     returned when Close was called; otherwise the start had completed before Close *)
+  match orun false oinit (if held then ctor_held_schedule true else ctor_unheld_schedule) with
   | Some s =>
       (regs s =? s_instances o) &&
-      Bool.eqb (match nth_error (starts s) 0 with Some PBound => true | _ => false end) start_ok &&
+      Bool.eqb (if held then match nth_error (starts s) 0 with Some PBound => true | _ => false end
+                else true (* PBind was taken on a registered instance: the start returned ok *)) start_ok &&
       Bool.eqb (match ocloser s with OClosed => true | _ => false end) (s_returned o) && negb (s_panic o) &&
       (negb (s_returned o) || (s_conns_open o =? 0))
   | None => false
@@ -385,7 +389,7 @@ Inductive case :=
 | ServerClose (insts : list nat) (ms : list smacro) (o : sobs)
 | ServerCloseRace (k n oks errs pending : nat) (o : sobs)
 | BlockedSend (nok : nat) (blocked : bool) (o : robs)
-| CtorHeld (start_ok : bool) (o : sobs).
+| CtorHeld (held start_ok : bool) (o : sobs).
 
 Definition agree (c : case) : bool :=
   match c with
@@ -394,7 +398,7 @@ Definition agree (c : case) : bool :=
   | ServerClose insts ms o => agree_server insts ms o
   | ServerCloseRace k n oks errs pending o => agree_closerace k n oks errs pending o
   | BlockedSend nok b o => agree_blocked nok b o
-  | CtorHeld ok o => agree_ctor_held ok o
+  | CtorHeld h ok o => agree_ctor_held h ok o
   end.
 
 Definition mismatches (l : list case) : list nat := mism_idx agree l.
@@ -450,7 +454,7 @@ Definition check (c : case) : list nat :=
   | ServerClose _ _ o => check_server o
   | ServerCloseRace _ _ _ _ _ o => check_server o
   | BlockedSend _ _ o => check_router o
-  | CtorHeld _ o => check_server o
+  | CtorHeld _ _ o => check_server o
   end.
 
 Definition violations (l : list case) : list (nat * nat) := viols check l.
